@@ -5,8 +5,8 @@ CONSTANTS
   DfChoices <- DfZero
   SpChoices <- SpBoth
   BoundVals = {24, 0}
-  MaxFuncs = 3
-  MaxParams = 2
+  MaxFuncs = 2
+  MaxParams = 1
   MaxTotal = 3
   MaxBound = 1
   MaxVariants = 1
